@@ -368,6 +368,10 @@ def c10(res, tier, seed):
     mc(res, b, "req-mapval", "rv2.Top", [1], ["uwire", "uwstrict", "checkinit"], 2,
        wire_recs=[[10, 10, 8, 7, 18, 2, 8, 1, 18, 2, 18, 0], [10, 6, 8, 7, 18, 2, 8, 1], [10, 8, 8, 7, 18, 4, 8, 1, 18, 0], [10, 4, 18, 2, 18, 0]],
        max_recs=2, laws=["AllWellFormed"])
+    # list elements (repeated_message = 2) complete and partial in every order of up to three, strict and partial decoding, then
+    # CheckInitialized: an incomplete element ANYWHERE in the list makes the message uninitialized
+    mc(res, b, "req-list", REQ_TE, [2], ["uwire", "uwstrict", "checkinit"], 2, wire_recs=[[18, 0], [18, 2, 8, 1]], max_recs=3,
+       laws=["AllWellFormed"])
     mc2(tier, res, b, "req-t2", REQ_T2, [1, 2, 3], ["checkinit", "marshal", "uenc"], 2, nest_at=1, nest_fields=[1])
     finish(res, b, seed, tier, "mut=10,checkinit=4,marshal=3,unmarshal=4,rt=1,merge=1", types=REQ_TYPES, rotate=True)
 
